@@ -44,6 +44,7 @@ EFFECTS = [
 
 EXPLANATION += ' (R5, round 8) also doc_start_sync / doc_leave, and the close of an API handle claims its closed flag by an atomic read-modify-write before the request is sent.'
 EXPLANATION += ' (R11, round 9) the OpenOpts builders evaluated: sync() sets the flag and keeps the subscriber, subscribe(tx) sets the subscriber and keeps the flag.'
+EXPLANATION += ' (R12, round 11) = the load cells of C07.R13: a failed open marks nothing open.'
 
 
 def actor_bodies(f):
